@@ -35,7 +35,8 @@ class OutcomeScript:
     def __init__(self, bits=(), fallback=0):
         self.bits = list(bits)
         self.fallback = fallback
-        self.taken = []  # (site, value, p or None)
+        self.taken = []  # (site, value, p or None) for every consultation
+        self.used = []  # values handed out for genuinely random measurements (scripted prefix + fallback answers)
         self.k = 0
 
     def next(self, site, p=None):
@@ -52,6 +53,7 @@ class OutcomeScript:
         else:
             v = int(self.fallback)
         self.k += 1
+        self.used.append(v)
         self.taken.append((site, v, None if p is None else [float(p[0]), float(p[1])]))
         return v
 
